@@ -512,13 +512,20 @@ EXACT_FIELDS = {
                          'cons-deflist': ':Parameters:\n    `a` : int\n        {D}'},
     'google': {'param': 'Args:\n    a: {D}', 'return': 'Returns:\n    {D}', 'raise': 'Raises:\n    ValueError: {D}', 'keyword': 'Keyword Args:\n    k: {D}',
                'see-named': 'See Also:\n    f: {D}', 'note': 'Note:\n    {D}', 'warns': 'Warns:\n    UserWarning: {D}', 'yield': 'Yields:\n    int: {D}',
-               'param-typed': 'Args:\n    a (int): {D}', 'param-cont': 'Args:\n    a: {w}\n        {D}'},
+               'param-typed': 'Args:\n    a (int): {D}', 'param-cont': 'Args:\n    a: {w}\n        {D}',
+               # the description starts on the line after the colon; the type spans several lines
+               'param-typed-nextline': 'Args:\n    a (int):\n        {D}', 'param-mltype': 'Args:\n    a (Union[int,\n        str]): {D}',
+               'param-mltype-nextline': 'Args:\n    a (Union[int,\n        str]):\n        {D}', 'keyword-mltype-nextline': 'Keyword Args:\n    k (Union[int,\n        str]):\n        {D}',
+               'return-mltype-nextline': 'Returns:\n    Union[int,\n    str]:\n        {D}', 'yield-mltype-nextline': 'Yields:\n    Union[int,\n    str]:\n        {D}',
+               'return-typed-nextline': 'Returns:\n    int:\n        {D}'},
     'numpy': {'param': 'Parameters\n----------\na\n    {D}', 'return': 'Returns\n-------\nint\n    {D}', 'raise': 'Raises\n------\nValueError\n    {D}',
               'see-named': 'See Also\n--------\nf : {D}', 'see-named-cont': 'See Also\n--------\nf : {w}\n    {D}', 'note': 'Notes\n-----\n{D}',
               'warns': 'Warns\n-----\nUserWarning\n    {D}', 'yield': 'Yields\n------\nint\n    {D}', 'return-freeform': 'Returns\n-------\n{D}',
               'keyword': 'Other Parameters\n----------------\nk\n    {D}', 'param-typed': 'Parameters\n----------\na : int\n    {D}', 'param-cont': 'Parameters\n----------\na\n    {w}\n    {D}'},
 }
-EXACT_HOME = {'see-named': None, 'see-named-cont': None, 'see': ('See Also', None), 'author': ('Author', None), 'warns': ('Warns', None), 'yield': ('Yields', None), 'return-freeform': ('Returns', None),
+EXACT_HOME = {'param-typed-nextline': ('Parameters', 'a'), 'param-mltype': ('Parameters', 'a'), 'param-mltype-nextline': ('Parameters', 'a'), 'keyword-mltype-nextline': ('Parameters', 'k'),
+              'return-mltype-nextline': ('Returns', None), 'yield-mltype-nextline': ('Yields', None), 'return-typed-nextline': ('Returns', None),
+              'see-named': None, 'see-named-cont': None, 'see': ('See Also', None), 'author': ('Author', None), 'warns': ('Warns', None), 'yield': ('Yields', None), 'return-freeform': ('Returns', None),
               'param': ('Parameters', 'a'), 'param-cont': ('Parameters', 'a'), 'param-typed': ('Parameters', 'a'), 'return': ('Returns', None), 'raise': ('Raises', 'ValueError'),
               'keyword': ('Parameters', 'k'), 'note': ('Note', None), 'cons-colon': ('Parameters', 'a'), 'cons-dash': ('Parameters', 'a'), 'cons-spacecolon': ('Parameters', 'a'),
               'cons-second': ('Parameters', 'a'), 'cons-exceptions': ('Raises', 'ValueError'), 'cons-keywords': ('Parameters', 'k'), 'cons-deflist': ('Parameters', 'a')}
@@ -631,9 +638,18 @@ def judge_owner_field(fmt: str, owner: str, fld: str, with_body: bool, res: Dict
     from pydoctor.stanutils import flatten_text
     from pydoctor.templatewriter import pages
     w = W()
-    body = f'Desc {w()}.\n\n' if with_body else ''
+    btoks: List[str] = []
+    if isinstance(with_body, str):
+        # a body that is ONE block and no paragraph: a literal block, a doctest block, a math block
+        bw = w()
+        btoks = [bw]
+        body = {'literal-only': f'::\n\n    {bw} = 1\n\n', 'doctest-only': f'>>> {bw} = 1\n\n', 'math-only': f'.. math::\n\n    {bw} = 1\n\n',
+                'bullets-only': f'- {bw}\n\n', 'epy-doctest-only': f'>>> {bw} = 1\n\n'}[with_body]
+    else:
+        body = f'Desc {w()}.\n\n' if with_body else ''
     tmpl = (OWNER_FIELDS_NAP[fmt] if fmt in NAP_FIELDS else OWNER_FIELDS_E)[fld]
     text, toks = fmt_field(tmpl, w)
+    toks = list(toks) + btoks
     if fmt == 'restructuredtext':
         text = re.sub(r'^@(\w+)( [^:\n]+)?:', lambda m: ':' + m.group(1) + (m.group(2) or '') + ':', text, flags=re.M)
     doc = body + text
@@ -668,6 +684,9 @@ def judge_owner_field(fmt: str, owner: str, fld: str, with_body: bool, res: Dict
     res['outcomes'].add((fmt, owner, bool(msgs)))
     lost = [t for t in toks if t not in alltext]
     if lost and not msgs:
+        if btoks and btoks[0] in lost:
+            res['violations'].append(core.violation(f'body-block-lost-silently/{owner}/{with_body}', f'{fmt}: the {with_body} body of the docstring of a {owner} (with field {fld}): {lost} shown nowhere and nothing reported\n{src}', case))
+            return
         res['violations'].append(core.violation(f'field-text-lost-silently/{owner}/{fld.split("-")[0]}' + ('+body' if with_body and owner.startswith('property') else ''),
                                                 f'{fmt}: field {fld} in the docstring of a {owner}: {lost} shown nowhere and nothing reported\n{src}', case))
 
@@ -744,6 +763,9 @@ def run_job(job: Any, tier: str) -> Dict[str, Any]:
         for fld in (OWNER_FIELDS_NAP[fmt] if fmt in NAP_FIELDS else OWNER_FIELDS_E):
             for with_body in (True, False):
                 judge_owner_field(fmt, owner, fld, with_body, res)
+            if fld in ('return', 'rtype', 'param', 'note', 'ivar', 'raise', 'type-only-return', 'return+rtype', 'yield'):
+                for bk in (('epy-doctest-only', 'bullets-only') if fmt == 'epytext' else ('literal-only', 'doctest-only', 'math-only', 'bullets-only')):
+                    judge_owner_field(fmt, owner, fld, bk, res)
     elif job[0] == 'exact':
         fmt = job[1]
         s = mk(fmt)
